@@ -159,7 +159,7 @@ func checkC05(c *Ctx) {
 	R.Floor("C05-owner", 2)
 	// direct socket writes
 	c.checkSocketDiscipline("C05-owner-socket")
-	R.Floor("C05-owner-socket", 4)
+	R.Floor("C05-owner-socket", 2)
 
 	// ---- C05-locked
 	ls := an.LockSets(write, nil)
@@ -386,7 +386,7 @@ func checkC05(c *Ctx) {
 			R.OK("C05-shared", key, c.pos(s), "writer = "+an.Path(args[0])+", lock = &"+an.Path(mbase)+".writerMu of the same conn")
 		}
 	}
-	R.Floor("C05-shared", 4)
+	R.Floor("C05-shared", 2)
 	// (4) conn.writerMu is a sync.Mutex by value and conn is never copied
 	if ct := c.P.NamedType(G, "conn"); ct != nil {
 		st := ct.Underlying().(*types.Struct)
